@@ -154,17 +154,33 @@ func runPubLocks(p *Pub) *lockRun {
 	}
 	e := pubLockEngine(p)
 	lr := &lockRun{}
+	e.computeInline()
 	for _, u := range e.units {
-		rep := e.analyse(u)
-		if !rep.hasLockOps {
-			continue
+		if e.inlined[u] {
+			continue // analysed in the context of its call sites
 		}
-		lr.nUnits++
-		lr.nLock += rep.nLock
-		lr.nUnlock += rep.nUnlock
-		lr.nAccess += rep.nAccess
-		lr.reports = append(lr.reports, rep)
-		lr.appCalls = append(lr.appCalls, rep.appCallsUnderLock...)
+		if !e.hasLockOps(u) {
+			// a parent without lock operations of its own still hosts its in-context closures
+			host := false
+			for _, t := range e.units {
+				if e.inlined[t] && t.Parent == u && e.hasLockOps(t) {
+					host = true
+				}
+			}
+			if !host {
+				continue
+			}
+		}
+		for _, rep := range e.analyse(u) {
+			if e.hasLockOps(rep.unit) {
+				lr.nUnits++
+			}
+			lr.nLock += rep.nLock
+			lr.nUnlock += rep.nUnlock
+			lr.nAccess += rep.nAccess
+			lr.reports = append(lr.reports, rep)
+			lr.appCalls = append(lr.appCalls, rep.appCallsUnderLock...)
+		}
 	}
 	for _, u := range e.units {
 		if e.mayLock[u] {
@@ -213,10 +229,10 @@ func checkC09(res *Result) {
 			}
 		}
 	}
-	res.Count("units touching Database", lr.nUnits, 22)
-	res.Count("Lock call sites", lr.nLock, 31)
-	res.Count("Unlock call sites", lr.nUnlock, 58)
-	res.Count("other Database call sites (excluding NewID)", lr.nAccess, 48)
+	res.Count("units touching Database", lr.nUnits, 15)
+	res.Count("Lock call sites", lr.nLock, 20)
+	res.Count("Unlock call sites", lr.nUnlock, 30)
+	res.Count("other Database call sites (excluding NewID)", lr.nAccess, 32)
 	res.Extra["functions_that_may_lock"] = lr.mayLock
 	res.Extra["application_calls_under_lock"] = lr.appCalls
 	res.Assumptions = append(res.Assumptions,
@@ -247,9 +263,9 @@ func checkC08(res *Result) {
 			n2++
 		}
 	}
-	res.Count("check-then-act pairs", n1, 6)
-	res.Count("read-modify-write pairs", n2, 11)
-	res.Count("Lock call sites", lr.nLock, 31)
+	res.Count("check-then-act pairs", n1, 4)
+	res.Count("read-modify-write pairs", n2, 8)
+	res.Count("Lock call sites", lr.nLock, 20)
 	checkC08Dup(res, p)
 	res.Extra["application_calls_under_lock"] = lr.appCalls
 	res.Assumptions = append(res.Assumptions,
